@@ -16,7 +16,7 @@ import (
 // simulator decides derives from these fields.
 func drawSim(t *rapid.T, label string) casefmt.SimConfig {
 	var c casefmt.SimConfig
-	c.Strategy = rapid.SampledFrom([]string{"np", "walk", "pct"}).Draw(t, label+"strategy")
+	c.Strategy = rapid.SampledFrom([]string{"np", "walk", "pct", "sync"}).Draw(t, label+"strategy")
 	c.Seed = uint64(rapid.IntRange(0, 1<<20).Draw(t, label+"sched_seed"))
 	switch c.Strategy {
 	case "walk":
